@@ -61,8 +61,15 @@ def canon(t):
     return tuple(canon(x) if isinstance(x, tuple) else x for x in t)
 
 
+class _Bag(dict):
+    def add(self, it):
+        self[it] = self.get(it, 0) + 1
+
+
 def sk_items(F, b, opaque):
-    items = set()
+    """multiset of skeleton items: (item, count) pairs so that a dropped duplicate store is seen"""
+    bag = _Bag()
+    items = bag
 
     def add(kind, t, W):
         items.add((kind, repr(normalize(canon(W.expand(t))))))
@@ -92,7 +99,7 @@ def sk_items(F, b, opaque):
     W = Walker(F, b, on_node=on_node)
     W.opaque_names = dict(opaque)
     W.run()
-    return items
+    return set((it, n) if n > 1 and it[0].startswith(("store", "upd", "call:push")) else (it, 1) for it, n in bag.items())
 
 
 SELECT_FNS = [
@@ -122,27 +129,29 @@ def compare_siblings(ctx, rr, paths, what, allowed):
     rr.instances += len(bodies)
     for it in sorted(union, key=repr):
         have = [names[i] for i, s in enumerate(sks) if it in s]
-        key_it = "%s:%s" % (what, repr(it)[:200])
+        it_show = it
+        base_repr = repr(it[0]) if it[1] == 1 else repr(it)
+        key_it = "%s:%s" % (what, base_repr[:200])
         if len(have) == len(bodies):
             rr.ob(True, key="%s:common" % what, nontrivial=False)
             continue
         missing = [n for n in names if n not in have]
         ok = False
         for a in allowed:
-            if re.search(a["item"], repr(it)) and sorted(a["only_in"]) == sorted(have):
+            if re.search(a["item"], base_repr) and sorted(a["only_in"]) == sorted(have):
                 ok = True
                 rr.assumed += 1
                 rr.assumptions.append("%s: %s" % (what, a["reason"]))
-        rr.ob(ok, key=key_it[:120], sample={"item": repr(it)[:200], "present_in": have, "missing_in": missing})
+        rr.ob(ok, key=key_it[:120], sample={"item": base_repr[:200], "present_in": have, "missing_in": missing})
         if not ok:
             dev = missing if len(missing) < len(have) else have
-            rr.violate("%s:deviant:%s:%s" % (what, ",".join(sorted(dev)), short_item(it)), "the sibling implementations of %s disagree: the decision/arithmetic item %s is present in %s but not in %s (the four files are meant to be edited in parallel; the deviant is %s)" % (what, repr(it)[:300], have, missing, dev), bodies[names.index(dev[0])].span)
+            rr.violate("%s:deviant:%s:%s" % (what, ",".join(sorted(dev)), short_item(it)), "the sibling implementations of %s disagree: the decision/arithmetic item %s is present in %s but not in %s (the four files are meant to be edited in parallel; the deviant is %s)" % (what, base_repr[:300], have, missing, dev), bodies[names.index(dev[0])].span)
     rr.samples.append({"siblings": names, "common_items": len(common), "all_items": len(union)})
 
 
 def short_item(it):
     import hashlib
-    return it[0] + "-" + hashlib.sha1(repr(it).encode()).hexdigest()[:8]
+    return it[0][0] + "-" + hashlib.sha1(repr(it).encode()).hexdigest()[:8]
 
 
 @rule("R02.3", props=["C02"], floor=8, title="the four adaptive selectors agree on their decision/arithmetic skeletons (fields <-> const parameters, ones <-> zeros)")
@@ -212,3 +221,78 @@ def r02_4(ctx, rr):
         rr.instances += 1
         okw = mentions(t, lambda x: x[0] == "op" and x[1] == "/" and x[3] == ("int", 4) and x[2][0] == "op" and x[2][1] == "/" and x[2][3] == ("int", 64))
         rr.check(okw, "Select9::new:subinventory-write-relative", "Select9::new addresses the subinventory at `%s`, not relative to (inventory[i] / 64) / 4" % tshow(t)[:200], F.loc(n))
+
+
+
+@rule("R02.7", props=["C02", "C01"], floor=10, title="SelectSmall/SelectZeroSmall: block counters are superblock-relative -- every comparison of `.absolute` with the rank accounts for the upper count")
+def r02_7(ctx, rr):
+    F = ctx.F()
+    bodies = F.find(r"^<rank_sel::select_small::SelectSmall<\d+, \d+, C> as traits::rank_sel::SelectUnchecked>::select_unchecked$") + \
+        F.find(r"^<rank_sel::select_zero_small::SelectZeroSmall<\d+, \d+, C> as traits::rank_sel::SelectZeroUnchecked>::select_zero_unchecked$")
+    if len(bodies) < 10:
+        raise AnchorMissing("expected 10 select(_zero)_unchecked bodies of SelectSmall/SelectZeroSmall, found %d" % len(bodies))
+    for b in bodies:
+        rank = ("var", b.params[1]["name"], b.params[1]["id"])
+        found = []
+
+        def on_node(W, n, K, found=found):
+            if W.debug_depth:
+                return
+            if n.get("k") == "Binary" and n["op"] in ("<", "<=", ">", ">="):
+                l = W.expand(W.T.term(n["l"]))
+                r = W.expand(W.T.term(n["r"]))
+                both = ("tup", l, r)
+                if mentions(both, lambda x: x[0] == "field" and x[2] == "absolute") and mentions(both, lambda x: x == rank):
+                    upper = mentions(both, lambda x: x[0] == "call" and x[1].endswith("get_unchecked") and mentions(x, lambda y: y[0] == "call" and y[1].endswith("upper_counts")))
+                    found.append((n, upper, tshow(l)[:120], tshow(r)[:120]))
+        Walker(F, b, on_node=on_node).run()
+        if not found:
+            raise AnchorMissing("%s: no comparison between block counters and the rank" % b.key)
+        for n, ok, l, r in found:
+            rr.instances += 1
+            key = "%s:absolute-vs-rank" % short_fn(b.key)
+            rr.ob(ok, key=key + str(ok), sample={"fn": b.key, "lhs": l, "rhs": r})
+            if not ok:
+                rr.violate(key, "%s compares the superblock-relative counter with the global rank (`%s` vs `%s`) without the upper count of the 2^32-bit superblock: right only inside the first superblock" % (b.key, l, r), F.loc(n))
+
+
+@rule("R02.8", props=["C02"], floor=2, title="Select9: builder and reader partition the span identically, and a class storing k-bit offsets only holds spans whose offsets fit k bits")
+def r02_8(ctx, rr):
+    F = ctx.F()
+    nb = F.one(r"^rank_sel::select9::Select9::<rank_sel::rank9::Rank9<B, C>>::new$")
+    sb = F.one(r"^<rank_sel::select9::Select9<rank_sel::rank9::Rank9<B, C>, I> as traits::rank_sel::SelectUnchecked>::select_unchecked$")
+
+    def arms_of(b):
+        for n in walk(b.body):
+            if n.get("k") == "Match" and n.get("src") == "Normal" and show(F, n["e"]) == "span":
+                out = []
+                for a in n["arms"]:
+                    p = a["pat"]
+                    body = show(F, a["body"])
+                    kind = "u16" if ("as u16" in body or "align_to::<u16>" in body or "state = 2" in body) else "u32" if ("as u32" in body or "state = 1" in body) else "other"
+                    if p.get("k") == "PRange":
+                        out.append((int(p["lo"]["v"]), int(p["hi"]["v"]) - (0 if p.get("incl") else 1), a))
+                    elif p.get("k") == "PWild":
+                        out.append((None, None, a))
+                return out
+        return None
+    A, B = arms_of(nb), arms_of(sb)
+    if not A or not B:
+        raise AnchorMissing("Select9: `match span` not found in new/select_unchecked")
+    ra = [(x[0], x[1]) for x in A]
+    rb = [(x[0], x[1]) for x in B]
+    rr.instances += 1
+    rr.check(ra == rb, "Select9:span-classes-agree", "Select9::new and select_unchecked classify the span differently: %s vs %s" % (ra, rb), nb.span)
+    # classes with explicit offsets: the reader arms that reinterpret the subinventory as u16 / u32
+    # span is a difference of 4-word group indices: a one can lie up to (span + 1) * 256 - 1 bits after the entry's first one
+    for lo, hi, arm in B:
+        if lo is None:
+            continue
+        body_nodes = list(walk(arm["body"]))
+        tys = [F.ty(n) for n in body_nodes if n.get("k") == "MethodCall" and n["name"] == "align_to"]
+        width = 16 if any("u16" in t for t in tys) else 32 if any("u32" in t for t in tys) else None
+        if width is None or lo < 128:
+            continue
+        rr.instances += 1
+        ok = (hi + 1) * 256 <= (1 << width)
+        rr.check(ok, "Select9:u%d-class-bound" % width, "Select9 stores %d-bit offsets for spans up to %d groups of 256 bits, but then an offset can reach %d >= 2^%d and is truncated" % (width, hi, (hi + 1) * 256 - 1, width), F.loc(arm["body"]))
